@@ -637,127 +637,131 @@ def run(chk):
                       "small_shapes": "6 shapes x 21 single operations x 32 flag vectors + 5 importance shapes x 21 x 8, each: flags, write, operation, write"}
     for c in cases:
         c.pop("_", None)
-    impl = pmap(ci.run_impl, [{k: v for k, v in c.items() if k != "src"} for c in cases], chunksize=16)
-    dens = denote_writes(impl)
-    # the READ half: the Spec's reading of every distinct generated / hand-made input
-    in_den = {}
-    for lim in (80, 128):
-        texts = sorted({c["text"] for c in cases if c.get("limit", 128) == lim and c.get("src", "").split(":")[0] in ("small", "generated", "history", "corpus")})
-        for t, d in zip(texts, spec.denote_many(texts, lim) if texts else []):
-            in_den[(lim, t)] = d
+    all_cases = cases
     read_judged = set()
-    built = [build_model_case(c, r) for c, r in zip(cases, impl)]
-    idx = [i for i, b in enumerate(built) if b is not None]
-    model_out = drv.batch([built[i][0] for i in idx]) if drv.ok else None
-    model = {i: model_out[k] for k, i in enumerate(idx)} if model_out is not None else {}
-
     seen_sig = {}
-    for i, (case, ri) in enumerate(zip(cases, impl)):
-        src = case.get("src", "?").split(":")[0]
-        pure = {k: v for k, v in case.items() if k != "src"}
-        chk.count("src:" + src)
-        if ri.get("read") != "ok":
-            chk.count("read:" + ri.get("read", "?"))
-            chk.note_case(pure, False)
-            continue
-        nontrivial = False
-        for op, st in zip(case["ops"], ri["steps"]):
-            chk.count("op:" + op[0])
-            if op[0] == "write":
-                chk.count("write:" + st["out"])
-                fl = st["api"]["flags"]
-                chk.count("flags_true:" + str(sum(fl)))
-                if any(fl) or len(case["ops"]) > 2:
-                    nontrivial = True
-            elif st["out"] != "ok":
-                chk.count("refused:" + op[0] + ":" + st["out"].split(":")[-1])
-        chk.note_case(pure, nontrivial, sample_every=4000)
-        rkey = (pure.get("limit", 128), pure["text"])
-        if rkey in in_den and rkey not in read_judged:
-            read_judged.add(rkey)
-            chk.count("read-judged")
-            rv = judge_read(pure, ri, in_den[rkey])
-            if rv is not None:
-                ri2 = ci.run_impl(dict(pure, ops=[]))  # confirm in this process
-                rv = judge_read(pure, ri2, in_den[rkey])
-                if rv is None:
+    CHUNK = 5000  # bounded memory: results (texts, states) of one chunk at a time
+    for c0 in range(0, len(all_cases), CHUNK):
+        cases = all_cases[c0:c0 + CHUNK]
+        impl = pmap(ci.run_impl, [{k: v for k, v in c.items() if k != "src"} for c in cases], chunksize=16)
+        dens = denote_writes(impl)
+        # the READ half: the Spec's reading of every distinct generated / hand-made input
+        in_den = {}
+        for lim in (80, 128):
+            texts = sorted({c["text"] for c in cases if c.get("limit", 128) == lim and c.get("src", "").split(":")[0] in ("small", "generated", "history", "corpus")})
+            for t, d in zip(texts, spec.denote_many(texts, lim) if texts else []):
+                in_den[(lim, t)] = d
+        built = [build_model_case(c, r) for c, r in zip(cases, impl)]
+        idx = [i for i, b in enumerate(built) if b is not None]
+        model_out = drv.batch([built[i][0] for i in idx]) if drv.ok else None
+        model = {i: model_out[k] for k, i in enumerate(idx)} if model_out is not None else {}
+
+        for i, (case, ri) in enumerate(zip(cases, impl)):
+            src = case.get("src", "?").split(":")[0]
+            pure = {k: v for k, v in case.items() if k != "src"}
+            chk.count("src:" + src)
+            if ri.get("read") != "ok":
+                chk.count("read:" + ri.get("read", "?"))
+                chk.note_case(pure, False)
+                continue
+            nontrivial = False
+            for op, st in zip(case["ops"], ri["steps"]):
+                chk.count("op:" + op[0])
+                if op[0] == "write":
+                    chk.count("write:" + st["out"])
+                    fl = st["api"]["flags"]
+                    chk.count("flags_true:" + str(sum(fl)))
+                    if any(fl) or len(case["ops"]) > 2:
+                        nontrivial = True
+                elif st["out"] != "ok":
+                    chk.count("refused:" + op[0] + ":" + st["out"].split(":")[-1])
+            chk.note_case(pure, nontrivial, sample_every=4000)
+            rkey = (pure.get("limit", 128), pure["text"])
+            if rkey in in_den and rkey not in read_judged:
+                read_judged.add(rkey)
+                chk.count("read-judged")
+                rv = judge_read(pure, ri, in_den[rkey])
+                if rv is not None:
+                    ri2 = ci.run_impl(dict(pure, ops=[]))  # confirm in this process
+                    rv = judge_read(pure, ri2, in_den[rkey])
+                    if rv is None:
+                        chk.count("flaky:violation-not-reproduced")
+                    else:
+                        small = dict(pure, ops=[])
+
+                        def fails_text(t, sig=rv[0], lim=rkey[0]):
+                            c2 = dict(small, text=t)
+                            r = judge_read(c2, ci.run_impl(c2), spec.denote(t, lim))
+                            return r is not None and r[0] == sig
+
+                        try:
+                            t = shrink_text(small["text"], fails_text)
+                            if fails_text(t):
+                                small = dict(small, text=t)
+                        except Exception:  # noqa: BLE001
+                            pass
+                        chk.violation(rv[0], rv[1], {"case": small, "api_after_read": ri2.get("state0")})
+            verdict = judge_case(pure, ri, dens[i])
+            upto = len(ri["steps"])
+            if verdict is not None:
+                upto = verdict[0]
+                key = canon(verdict[1])
+                seen_sig[key] = seen_sig.get(key, 0) + 1
+                if seen_sig[key] > 2:
+                    # the same signature was confirmed (re-run in this process) and reported already: count only
+                    chk.count("violation-occurrences-not-rerun")
+                    verdict = None
+            if verdict is not None:
+                ri2, dens2 = run_one(pure)  # confirm in this process before reporting
+                v2 = judge_case(pure, ri2, dens2)
+                if v2 is None or v2[1] != verdict[1]:
                     chk.count("flaky:violation-not-reproduced")
+                    verdict = None
                 else:
-                    small = dict(pure, ops=[])
+                    j, sig, what = v2
+                    upto = j
+                    small = shrink_case(pure, sig, j) if len(chk.violations) < 3 else pure
+                    r3, d3 = run_one(small)
+                    v3 = judge_case(small, r3, d3)
+                    if v3 is None or v3[1] != sig:
+                        small, v3 = pure, v2
+                    step = r3["steps"][v3[0]] if v3 is not None and small is not pure else ri2["steps"][j]
+                    chk.violation(sig, v3[2] if v3 else what, {"case": small, "written": step.get("text"), "api": step.get("api"), "raised": step["out"]})
+            if i in model:
+                chk.traces_validated += 1
+                nsteps = min(built[i][1], upto)
+                diff = compare_case(pure, ri, dens[i], model[i], nsteps)
+                if diff is not None and chk.dist.get("disagreement-confirmed", 0) >= 4:
+                    chk.count("disagreement-occurrences-not-rerun")
+                    diff = None
+                if diff is not None:
+                    chk.disagreements_checked += 1
+                    chk.count("disagreement:" + diff[1][:60])
+                    ri2, dens2 = run_one(pure)
+                    b2 = build_model_case(pure, ri2)
+                    rm2 = drv.batch([b2[0]])[0] if b2 else None
+                    diff2 = compare_case(pure, ri2, dens2, rm2, min(b2[1], upto)) if b2 else None
+                    if diff2 is None:
+                        chk.count("flaky:disagreement-not-reproduced")
+                        continue
+                    chk.count("disagreement-confirmed")
+                    small = pure
+                    if chk.dist.get("disagreement-confirmed", 0) <= 2:
+                        def differs(ops, pure=pure, last=pure["ops"][diff2[0]:diff2[0] + 1]):
+                            c = dict(pure, ops=ops + last)
+                            r, d = run_one(c)
+                            b = build_model_case(c, r)
+                            if not b:
+                                return False
+                            return compare_case(c, r, d, drv.batch([b[0]])[0], b[1]) is not None
 
-                    def fails_text(t, sig=rv[0], lim=rkey[0]):
-                        c2 = dict(small, text=t)
-                        r = judge_read(c2, ci.run_impl(c2), spec.denote(t, lim))
-                        return r is not None and r[0] == sig
-
-                    try:
-                        t = shrink_text(small["text"], fails_text)
-                        if fails_text(t):
-                            small = dict(small, text=t)
-                    except Exception:  # noqa: BLE001
-                        pass
-                    chk.violation(rv[0], rv[1], {"case": small, "api_after_read": ri2.get("state0")})
-        verdict = judge_case(pure, ri, dens[i])
-        upto = len(ri["steps"])
-        if verdict is not None:
-            upto = verdict[0]
-            key = canon(verdict[1])
-            seen_sig[key] = seen_sig.get(key, 0) + 1
-            if seen_sig[key] > 2:
-                # the same signature was confirmed (re-run in this process) and reported already: count only
-                chk.count("violation-occurrences-not-rerun")
-                verdict = None
-        if verdict is not None:
-            ri2, dens2 = run_one(pure)  # confirm in this process before reporting
-            v2 = judge_case(pure, ri2, dens2)
-            if v2 is None or v2[1] != verdict[1]:
-                chk.count("flaky:violation-not-reproduced")
-                verdict = None
-            else:
-                j, sig, what = v2
-                upto = j
-                small = shrink_case(pure, sig, j) if len(chk.violations) < 3 else pure
-                r3, d3 = run_one(small)
-                v3 = judge_case(small, r3, d3)
-                if v3 is None or v3[1] != sig:
-                    small, v3 = pure, v2
-                step = r3["steps"][v3[0]] if v3 is not None and small is not pure else ri2["steps"][j]
-                chk.violation(sig, v3[2] if v3 else what, {"case": small, "written": step.get("text"), "api": step.get("api"), "raised": step["out"]})
-        if i in model:
-            chk.traces_validated += 1
-            nsteps = min(built[i][1], upto)
-            diff = compare_case(pure, ri, dens[i], model[i], nsteps)
-            if diff is not None and chk.dist.get("disagreement-confirmed", 0) >= 4:
-                chk.count("disagreement-occurrences-not-rerun")
-                diff = None
-            if diff is not None:
-                chk.disagreements_checked += 1
-                chk.count("disagreement:" + diff[1][:60])
-                ri2, dens2 = run_one(pure)
-                b2 = build_model_case(pure, ri2)
-                rm2 = drv.batch([b2[0]])[0] if b2 else None
-                diff2 = compare_case(pure, ri2, dens2, rm2, min(b2[1], upto)) if b2 else None
-                if diff2 is None:
-                    chk.count("flaky:disagreement-not-reproduced")
-                    continue
-                chk.count("disagreement-confirmed")
-                small = pure
-                if chk.dist.get("disagreement-confirmed", 0) <= 2:
-                    def differs(ops, pure=pure, last=pure["ops"][diff2[0]:diff2[0] + 1]):
-                        c = dict(pure, ops=ops + last)
-                        r, d = run_one(c)
-                        b = build_model_case(c, r)
-                        if not b:
-                            return False
-                        return compare_case(c, r, d, drv.batch([b[0]])[0], b[1]) is not None
-
-                    try:
-                        ops = shrink_list(pure["ops"][: diff2[0]], differs)
-                        small = dict(pure, ops=ops + pure["ops"][diff2[0]:diff2[0] + 1])
-                    except Exception:  # noqa: BLE001
-                        small = pure
-                chk.broken_obligation("correspondence", "U-celldata (Model/CellData.lean vs cell_modifier.py, importance.py, volume.py, universe_input.py, lattice_input.py, fill.py, cells.py, cell.py, mcnp_problem.py)",
-                                      {"step": diff2[0], "difference": diff2[1]}, small)
+                        try:
+                            ops = shrink_list(pure["ops"][: diff2[0]], differs)
+                            small = dict(pure, ops=ops + pure["ops"][diff2[0]:diff2[0] + 1])
+                        except Exception:  # noqa: BLE001
+                            small = pure
+                    chk.broken_obligation("correspondence", "U-celldata (Model/CellData.lean vs cell_modifier.py, importance.py, volume.py, universe_input.py, lattice_input.py, fill.py, cells.py, cell.py, mcnp_problem.py)",
+                                          {"step": diff2[0], "difference": diff2[1]}, small)
 
 
 def replay(chk, payload):
